@@ -1286,6 +1286,249 @@ def sympy_stage(ctx, H):
     ctx.log("sympy stage: %d goals, %d accepted" % (n, nacc))
 
 
+
+# ---------------------------------------------------------------------------------------------
+# Correspondence: real convert / solve_core  vs  Lean model
+# ---------------------------------------------------------------------------------------------
+class OutsideModel(Exception):
+    pass
+
+
+def ty_sexp(H, T):
+    Ty = H.Ty
+    if T == Ty.BoolType:
+        return "bool"
+    if T == Ty.NatType:
+        return "nat"
+    if T == Ty.IntType:
+        return "int"
+    if T == Ty.RealType:
+        return "real"
+    if T.is_tvar():
+        return ["tv", sexp.enc(T.name)]
+    raise OutsideModel("type %s" % T)
+
+
+def is_funlike(T):
+    return T.is_fun() or (T.is_tconst() and T.name == "set")
+
+
+def term_to_h(H, t, depth=0):
+    """Reads a real holpy term the way z3wrapper.convert dispatches on it -> wire term of the model.
+    Bound variables: the binder body is opened with a marker variable (as convert does with a
+    fresh Var) so that get_type works; markers become de Bruijn indices again."""
+    T, Ty = H.T, H.Ty
+    rec = lambda x: term_to_h(H, x, depth)
+    if t.is_var():
+        if t.name.startswith("%b%"):
+            return ["bv", depth - 1 - int(t.name[3:])]
+        return ["var", sexp.enc(t.name), ty_sexp(H, t.T)]
+    if t.is_forall() or t.is_exists():
+        if not t.arg.is_abs():
+            raise OutsideModel("quantifier over non-abstraction")
+        v = T.Var("%%b%%%d" % depth, t.arg.var_T)
+        body = term_to_h(H, t.arg.subst_bound(v), depth + 1)
+        return ["all" if t.is_forall() else "ex", sexp.enc(t.arg.var_name), ty_sexp(H, t.arg.var_T), body]
+    if t.is_number():
+        v = Fraction(t.dest_number())
+        return ["num", ty_sexp(H, t.get_type()), v.numerator, v.denominator]
+    if t.is_implies():
+        return ["imp", rec(t.arg1), rec(t.arg)]
+    if t.is_equals():
+        if is_funlike(t.arg.get_type()):
+            return "eqfun"
+        return ["eq", rec(t.arg1), rec(t.arg)]
+    if t.is_conj():
+        return ["and", rec(t.arg1), rec(t.arg)]
+    if t.is_disj():
+        return ["or", rec(t.arg1), rec(t.arg)]
+    if H.logic.is_if(t):
+        b, t1, t2 = t.args
+        return ["ite", rec(b), rec(t1), rec(t2)]
+    if H.logic.is_xor(t):
+        return ["xor", rec(t.args[0]), rec(t.args[1])]
+    if t.is_not():
+        return ["not", rec(t.arg)]
+    if t.is_plus():
+        return ["add", rec(t.arg1), rec(t.arg)]
+    if t.is_minus():
+        return ["sub", t.arg1.get_type() == Ty.NatType, rec(t.arg1), rec(t.arg)]
+    if t.is_uminus():
+        return ["neg", rec(t.arg)]
+    if t.is_times():
+        return ["mul", rec(t.arg1), rec(t.arg)]
+    if t.is_less_eq():
+        return ["le", rec(t.arg1), rec(t.arg)]
+    if t.is_less():
+        return ["lt", rec(t.arg1), rec(t.arg)]
+    if t.is_greater_eq():
+        return ["ge", rec(t.arg1), rec(t.arg)]
+    if t.is_greater():
+        return ["gt", rec(t.arg1), rec(t.arg)]
+    if t.is_divides():
+        return ["div", rec(t.arg1), rec(t.arg)]
+    if t.is_comb("of_nat", 1):
+        if t.get_type() == Ty.RealType:
+            return ["ofnat", rec(t.arg)]
+        return "unsup"
+    if t.is_comb("max", 2):
+        return ["max", rec(t.arg1), rec(t.arg)]
+    if t.is_comb("min", 2):
+        return ["min", rec(t.arg1), rec(t.arg)]
+    if t.is_comb("abs", 1):
+        return ["abs", t.get_type() == Ty.RealType, rec(t.arg)]
+    if t.is_comb("member", 2):
+        S = t.arg
+        if S.is_var() and S.T.is_tconst() and S.T.name == "set":
+            return ["mem", rec(t.arg1), sexp.enc(S.name), ty_sexp(H, S.T.args[0])]
+        raise OutsideModel("membership in a non-variable")
+    if t.is_comb():
+        f = t.fun
+        if f.is_var() and f.T.is_fun() and not f.name.startswith("%b%"):
+            return ["app", sexp.enc(f.name), ty_sexp(H, f.T.domain_type()), ty_sexp(H, f.T.range_type()), rec(t.arg)]
+        h = t.head
+        if h.is_const():
+            return "unsup"
+        raise OutsideModel("application")
+    if t.is_const():
+        if t == T.true:
+            return "tt"
+        if t == T.false:
+            return "ff"
+        return "unsup"
+    return "unsup"
+
+
+def sort_sexp(z3, s):
+    k = s.kind()
+    if k == z3.Z3_BOOL_SORT:
+        return "Bool"
+    if k == z3.Z3_INT_SORT:
+        return "Int"
+    if k == z3.Z3_REAL_SORT:
+        return "Real"
+    return ["U", sexp.enc(s.name())]
+
+
+def z3_to_sexp(z3, e):
+    """Canonical form of a z3py AST (bound variables are de Bruijn indices in Z3 already)."""
+    if isinstance(e, bool):
+        return ["b", e]
+    if z3.is_quantifier(e):
+        if e.num_vars() != 1:
+            return ["?multi-quantifier"]
+        return ["forall" if e.is_forall() else "exists", sort_sexp(z3, e.var_sort(0)), z3_to_sexp(z3, e.body())]
+    if z3.is_var(e):
+        return ["bv", z3.get_var_index(e)]
+    if z3.is_int_value(e):
+        return ["i", e.as_long()]
+    if z3.is_rational_value(e):
+        return ["r", e.numerator_as_long(), e.denominator_as_long()]
+    if z3.is_true(e):
+        return ["b", True]
+    if z3.is_false(e):
+        return ["b", False]
+    k = e.decl().kind()
+    ch = [z3_to_sexp(z3, c) for c in e.children()]
+    ops = {z3.Z3_OP_NOT: "not", z3.Z3_OP_AND: "and", z3.Z3_OP_OR: "or", z3.Z3_OP_IMPLIES: "imp", z3.Z3_OP_EQ: "eq",
+           z3.Z3_OP_ITE: "ite", z3.Z3_OP_ADD: "add", z3.Z3_OP_SUB: "sub", z3.Z3_OP_MUL: "mul", z3.Z3_OP_DIV: "div",
+           z3.Z3_OP_UMINUS: "neg", z3.Z3_OP_LE: "le", z3.Z3_OP_LT: "lt", z3.Z3_OP_GE: "ge", z3.Z3_OP_GT: "gt",
+           z3.Z3_OP_TO_REAL: "to_real", z3.Z3_OP_IDIV: "idiv", z3.Z3_OP_IFF: "eq"}
+    if k in ops:
+        return [ops[k]] + ch
+    if k == z3.Z3_OP_UNINTERPRETED:
+        d = e.decl()
+        if d.arity() == 0:
+            return ["const", sexp.enc(d.name()), sort_sexp(z3, e.sort())]
+        if d.arity() == 1:
+            return ["app", sexp.enc(d.name()), sort_sexp(z3, d.domain(0)), sort_sexp(z3, d.range()), ch[0]]
+    return ["?" + sexp.enc(str(e.decl()))] + ch
+
+
+class FakeSolver:
+    """solve_core only uses `.ctx` and `.add`; recording the additions keeps Z3 out of the tie."""
+
+    def __init__(self):
+        self.ctx = None
+        self.items = []
+
+    def add(self, a):
+        self.items.append(a)
+
+
+def impl_solve_core(H, t, limit=60):
+    """Runs the real solve_core; returns (inputs seen by convert, vars, canonical result)."""
+    zw = H.zw
+    seen = []
+    first_names = []
+    orig = zw.convert
+
+    def wrapped(tm, var_names, assms, to_real, ctx):
+        if not seen:
+            first_names.append(list(var_names))
+        seen.append(tm)
+        return orig(tm, var_names, assms, to_real, ctx)
+    zw.convert = wrapped
+    s = FakeSolver()
+    try:
+        with time_limit(limit):
+            zw.solve_core(s, t)
+        res = ["ok"] + [z3_to_sexp(H.z3, a) for a in s.items]
+    except zw.Z3Exception:
+        res = ["error", "z3exc"]
+    except Timeout:
+        res = ["error", "timeout"]
+    except Exception as e:  # noqa
+        res = ["error", "crash"]
+    finally:
+        zw.convert = orig
+    return seen, res
+
+
+def correspondence(ctx, H, goals, label):
+    """Each goal: real solve_core (recorded) vs model solveCore on the very terms convert received."""
+    lines, impl, idxs = [], [], []
+    for gi, goal in enumerate(goals):
+        t = H.term(goal)
+        try:
+            seen, res = impl_solve_core(H, t)
+        except Exception as e:  # noqa   (norm_term itself failed)
+            ctx.count("corr:%s:solve_core-raises-before-convert" % label)
+            continue
+        try:
+            if seen:
+                As, C = seen[:-1], seen[-1]
+            else:
+                # solve_core raised before the first convert (duplicate names): rebuild its inputs
+                t2 = H.zw.norm_term(t)
+                names = H.logic.get_forall_names(t2, svar=False)
+                _, As, C = H.logic.strip_all_implies(t2, names, svar=False)
+            vs = H.T.get_vars(list(As) + [C])
+            vars_s = [[sexp.enc(v.name), ("fun" if is_funlike(v.T) else ty_sexp(H, v.T))] for v in vs]
+            line = ["solve", vars_s, [term_to_h(H, a) for a in As], term_to_h(H, C)]
+        except OutsideModel as e:
+            ctx.count("corr:%s:outside-model-language" % label)
+            continue
+        # a conclusion that failed to translate after some premises did: `seen` is still complete
+        lines.append(sexp.dumps(line))
+        impl.append(sexp.dumps(res))
+        idxs.append(gi)
+    out = ctx.lean_driver(EXE, lines) if lines else []
+    if out is None:
+        ctx.broken("correspondence:c06:driver", "model driver unavailable")
+        return
+    ndis = 0
+    for k, (a, b) in enumerate(zip(impl, out)):
+        ctx.count("corr:%s:%s" % (label, "agree" if a == b else "DISAGREE"))
+        ctx.count("corr:kind:" + (a.split(" ")[0].strip("(") + (":" + a.split(" ")[1].strip(")") if a.startswith("(error") else "")))
+        if a != b:
+            ndis += 1
+            if ndis <= 3:
+                ctx.broken("correspondence:c06:solve_core", "goal=%s\n line=%s\n impl =%s\n model=%s" % (H.term(goals[idxs[k]]), lines[k], a, b))
+                ctx.coverage["disagreements_checked"] += 1
+    return ndis
+
+
 def run(ctx):
     H = Holpy(ctx)
     H.z3.set_param("timeout", ctx.scale(2000, 4000))
@@ -1298,6 +1541,7 @@ def run(ctx):
     n = z3_check_goals(ctx, H, goals, ctx.rng("z3-oracle"), "gen")
     ctx.log("z3 stage: %d goals, %d accepted" % (len(goals), n))
     sympy_stage(ctx, H)
+    correspondence(ctx, H, goals, "gen")
     ctx.log(json.dumps(ctx.coverage["histogram"], indent=0, sort_keys=True))
 
 
